@@ -42,18 +42,16 @@ mut("C09", "no_wrap", (GEO, "        system_1x = system.copy()\n        system_1
 # ---- C01
 mut("C01", "no_input_copy", (SBC, "        system_copy = system.copy()", "        system_copy = system"))
 mut("C01", "localize_keeps_shared_atoms", (SBC, "                    if cluster != max_cluster:\n                        ind_set.remove(i)", "                    if cluster != max_cluster and len(i_clusters) > 2:\n                        ind_set.remove(i)"))
-mut("C01", "clean_keeps_smallest_component", (SBC, "            largest_indices = max(dbscan_clusters, key=lambda x: len(x))", "            largest_indices = min(dbscan_clusters, key=lambda x: len(x))"))
 mut("C01", "global_rng", (SBC, "            i_seed = self.rng.choice(list(indices), 1)[0]", "            i_seed = np.random.choice(list(indices), 1)[0]"))
 mut("C01", "merge_ignores_species", (SBC, "                filter(lambda x: atomic_numbers[x] in target.species, source.indices)", "                filter(lambda x: True, source.indices)"))
 # ---- C13
 mut("C13", "stale_cache", (CLU, "            or self._distance_matrix_indices != list(self.indices)\n", "            or False\n"))
 mut("C13", "radii_not_forwarded", (CLU, "                radii=radii,\n            )", "            )"))
 # ---- C17
-mut("C17", "coverage_strict", (CLF, "                covered = coverage >= self.min_coverage", "                covered = coverage > self.min_coverage"))
 mut("C17", "no_input_copy", (CLF, "        system = input_system.copy()", "        system = input_system"))
 mut("C17", "single_atom_is_0d", (CLF, "            if n_atoms == 1:\n                classification = Atom(input_system)", "            if n_atoms == 0:\n                classification = Atom(input_system)"))
 # ---- symmetry family
-mut("C05", "transformation_not_transposed", (SA, "            transformed_positions = np.dot(old_pos, best_transformation_matrix.T)", "            transformed_positions = np.dot(old_pos, best_transformation_matrix)"))
+mut("C07", "transformation_not_transposed", (SA, "            transformed_positions = np.dot(old_pos, best_transformation_matrix.T)", "            transformed_positions = np.dot(old_pos, best_transformation_matrix)"))
 mut("C06", "letters_unsorted", (SA, "        wyckoff_letters = sorted(wyckoff_letters)\n", "        wyckoff_letters = list(wyckoff_letters)\n"),
     note="iteration order of a set of str depends on PYTHONHASHSEED")
 mut("C06", "id_counts_original_cell", (SA, "            n_atoms = len(group.indices)\n            i_string", "            n_atoms = len(group.indices) * len(self._original_system) // len(self.get_conventional_system())\n            i_string"))
@@ -61,14 +59,10 @@ mut("C07", "equivalent_atoms_of_input_cell", (SA, "        value = dataset.cryst
 mut("C07", "letters_not_permuted", (SA, "                new_w = best_permutations.get(old_w)\n                new_wyckoff_letters.append(new_w)", "                new_w = best_permutations.get(old_w)\n                new_wyckoff_letters.append(old_w)"))
 mut("C08", "parameter_from_wrong_component", (SA, "                                    W[idx] = R[icomp] - C[icomp]", "                                    W[idx] = R[idx] - C[idx]"))
 mut("C08", "flag_uses_any_letter", (SA, "            if len(variables) != 0:\n                return True\n        return False", "            if len(variables) != 0:\n                return len(wyckoff_letters) > 1\n        return False"))
-mut("C12", "a_centring_transposed", (SA, "                    [1, 0, 0],\n                    [0, 1 / 2, -1 / 2],\n                    [0, 1 / 2, 1 / 2],", "                    [1, 0, 0],\n                    [0, 1 / 2, 1 / 2],\n                    [0, -1 / 2, 1 / 2],"))
-mut("C12", "primitive_letters_of_wrong_atoms", (SA, "        prim_wyckoff = conv_wyckoff[inside_mask]", "        prim_wyckoff = conv_wyckoff[: len(inside_mask)]"))
 mut("C15", "exact_float_determinant", (SA, "            if determinant < 0:", "            if determinant == -1.0:"),
     (SA, "        operations = spglib.get_symmetry_from_database(self.get_hall_number())\n        rotations = operations[\"rotations\"]\n        chiral = True",
      "        operations = self.get_symmetry_operations()\n        rotations = operations[\"rotations\"]\n        chiral = True"))
 mut("C11", "no_2d_prefix", (SA, "        if self.n_pbc == 2:\n            string = f\"2D {string}\"", "        if self.n_pbc == 2:\n            string = f\"{string}\""))
-mut("C11", "vacuum_depends_on_input", (SA, "            thickness = max(\n                5, 3 * matid.geometry.get_thickness(symmetry_broken_system, i_pbc)\n            )",
-                                        "            thickness = max(\n                5, 0.5 * np.linalg.norm(symmetry_broken_system.get_cell()[i_pbc[0]])\n            )"))
 mut("C11", "no_axis_swap", (SA, "            if non_periodic_dim != swap_dim:", "            if False:"))
 mut("C14", "pointgroup_typo", (DATA, "    221: {\"bravais_lattice\": \"cP\", \"crystal_system\": \"cubic\", \"pointgroup\": \"m-3m\"},", "    221: {\"bravais_lattice\": \"cP\", \"crystal_system\": \"cubic\", \"pointgroup\": \"m-3\"},"))
 # ---- C19 / C20
@@ -78,3 +72,16 @@ mut("C20", "minimized_not_centred", (GEO, "        new_scaled_pos -= offset_rel"
 mut("C20", "swap_basis_forgets_pbc", (GEO, "    pbc_new[a] = pbc_old[b]\n    pbc_new[b] = pbc_old[a]", "    pbc_new[a] = pbc_old[a]\n    pbc_new[b] = pbc_old[b]"))
 mut("C20", "com_unweighted_angle", (GEO, "            xi = np.cos(theta) * masses\n            zeta = np.sin(theta) * masses", "            xi = np.cos(theta) * masses\n            zeta = np.sin(theta)"))
 mut("C20", "to_scaled_wrap_all_axes", (GEO, "    if wrap:\n        for i, periodic in enumerate(pbc):\n            if periodic:\n                fractional[:, i] %= 1.0", "    if wrap:\n        for i, periodic in enumerate(pbc):\n            if True:\n                fractional[:, i] %= 1.0"))
+
+# ---- replacements for mutants that turned out to be equivalent / not violations of their property (see DESIGN.md section 8)
+mut("C12", "a_centring_uses_c_matrix", (SA, "                    [1, 0, 0],\n                    [0, 1 / 2, -1 / 2],\n                    [0, 1 / 2, 1 / 2],", "                    [1 / 2, 1 / 2, 0],\n                    [-1 / 2, 1 / 2, 0],\n                    [0, 0, 1],"))
+mut("C12", "r_centring_wrong_sign", (SA, "                    [2 / 3, -1 / 3, -1 / 3],", "                    [2 / 3, 1 / 3, -1 / 3],"))
+mut("C11", "insufficient_vacuum", (SA, "            thickness = max(\n                5, 3 * matid.geometry.get_thickness(symmetry_broken_system, i_pbc)\n            )",
+                                    "            thickness = max(\n                1, 1.0 * matid.geometry.get_thickness(symmetry_broken_system, i_pbc)\n            )"))
+mut("C11", "centres_along_input_axis", (SA, "            translation[conv_pbc] = 0", "            translation[pbc] = 0"))
+mut("C02", "scale_cell_columns", (SBC, "                        new_cell[i, :] *= (max_pos - min_pos) + 1", "                        new_cell[:, i] *= (max_pos - min_pos) + 1"))
+mut("C03", "species_not_checked_in_matches", (GEO, "                if closest_atomic_number == atomic_number:\n                    match = closest_index\n                    substitution = None", "                if True:\n                    match = closest_index\n                    substitution = None"))
+mut("C04", "proto_cell_basis_displaced", ("matid/core/periodicfinder.py", "                group_avg = np.mean(final_pos, axis=0)\n                averaged_rel_pos.append(group_avg)\n                averaged_rel_num.append(group_num)\n\n            if i_group == seed_group_index:\n                new_group_index = len(averaged_rel_num) - 1\n        seed_group_index = new_group_index\n\n        # If no atoms are found in the proto cell, return without results\n        if not averaged_rel_pos or not averaged_rel_num:\n            return None, None, None\n\n        averaged_rel_pos = np.array(averaged_rel_pos)\n\n        proto_cell = Atoms(\n            scaled_positions=averaged_rel_pos,\n            symbols=averaged_rel_num,\n            cell=best_spans,\n            pbc=[True, True, True],",
+     "                group_avg = np.mean(final_pos, axis=0) + 0.03 * i_group\n                averaged_rel_pos.append(group_avg)\n                averaged_rel_num.append(group_num)\n\n            if i_group == seed_group_index:\n                new_group_index = len(averaged_rel_num) - 1\n        seed_group_index = new_group_index\n\n        # If no atoms are found in the proto cell, return without results\n        if not averaged_rel_pos or not averaged_rel_num:\n            return None, None, None\n\n        averaged_rel_pos = np.array(averaged_rel_pos)\n\n        proto_cell = Atoms(\n            scaled_positions=averaged_rel_pos,\n            symbols=averaged_rel_num,\n            cell=best_spans,\n            pbc=[True, True, True],"),
+    note="atoms of the 2nd, 3rd ... basis group are displaced: breaks the symmetry of multi-atom bases only")
+mut("C18", "distances_before_wrap", (CLF, "        cell = system.get_cell()\n        distances = matid.geometry.get_distances(system)", "        cell = system.get_cell()\n        distances = matid.geometry.get_distances(input_system)"))
